@@ -301,7 +301,14 @@ theorem header_helper_names_agree_partial (declared : List Str) (h : Str) (hh : 
     ((declared.map headerNameToPropertyName).Nodup → tsOptionWrites declared (headerNameToPropertyName h) = [h]) ∧
     ((declared.map headerNameToFuncName).Nodup → goHelperWrites declared (headerNameToFuncName h) = [h]) :=
   ⟨fun hn => filter_eq_singleton headerNameToPropertyName declared hn h hh,
-   fun hn => filter_eq_singleton headerNameToFuncName declared hn h hh⟩
+   fun hn => by unfold goHelperWrites; rw [filter_eq_singleton headerNameToFuncName declared hn h hh]; rfl⟩
+
+/-- a Go typed option never writes two headers: when declared names share a function name the helper
+belongs to the first declaration (`With…Header(name, value)` remains available for the others). -/
+theorem go_helper_writes_at_most_one (declared : List Str) (fn : Str) : (goHelperWrites declared fn).length ≤ 1 := by
+  unfold goHelperWrites; simp [List.length_take]; omega
+
+example : goHelperWrites ["X-Tenant".toList, "Tenant".toList, "X-Tenant".toList] "Tenant".toList = ["X-Tenant".toList] := by decide
 
 def HelperNamesAgree : Prop :=
   ∀ (declared : List Str), declared.Nodup → ∀ h ∈ declared, tsOptionWrites declared (headerNameToPropertyName h) = [h]
